@@ -504,7 +504,7 @@ HUpdate(P, hs, pre, e) ==
                   !.await = IF needRec /\ IsSync(hs)
                             THEN (IF changing THEN TRUE ELSE IF e.ev = "Sync" THEN FALSE ELSE hs.await)
                             ELSE hs.await,
-                  !.nget = IF "C14" \in P /\ e.ev = "Get" THEN hs.nget + 1 ELSE hs.nget,
+                  !.nget = IF "C14" \in P /\ IsSync(hs) /\ e.ev = "Get" THEN hs.nget + 1 ELSE hs.nget,
                   !.napplied = IF "C14" \in P /\ IsSync(hs) THEN hs.napplied + ReadsApplied(e) ELSE hs.napplied]
 
 -----------------------------------------------------------------------------
